@@ -16,25 +16,28 @@ extern "C" {
 using vc::g_stats;
 static vc::Args A;
 
-struct Part { bool file = false, has_name = true, fold = false; std::string name, filename, ctype, content; };
-struct Body { std::string boundary; bool lf = false; std::string preamble, epilogue; std::vector<Part> parts; };
+struct Part { bool file = false, has_name = true, fold = false; std::string name, filename, ctype, content; int var = 0; /* spelling: 1 filename before name, 2 lower-case header names, 4 an unrelated header before, 8 after Content-Disposition */ };
+struct Body { int lws = 0; /* transport padding after the delimiter: 1 SP, 2 HT SP (RFC 2046 5.1.1) */ int ctvar = 0; /* spelling of the Content-Type field in the end-to-end route */ std::string boundary; bool lf = false; std::string preamble, epilogue; std::vector<Part> parts; };
 
 static std::string quote(const std::string &s) { std::string o; for (char c : s) { if (c == '"' || c == '\\') o += '\\'; o += c; } return o; }
 
 static std::string serialize(const Body &b) {
     std::string E = b.lf ? "\n" : "\r\n", o;
     if (!b.preamble.empty()) o += b.preamble + E;
+    std::string pad = b.lws == 1 ? " " : b.lws == 2 ? "\t " : "";
     for (auto &p : b.parts) {
-        o += "--" + b.boundary + E;
-        o += "Content-Disposition: form-data;";
+        o += "--" + b.boundary + pad + E;
+        if (p.var & 4) o += "X-Before: v" + E;
+        o += (p.var & 2) ? "content-disposition: form-data;" : "Content-Disposition: form-data;";
         o += p.fold ? (E + " ") : " ";
-        if (p.has_name) { o += "name=\"" + quote(p.name) + "\""; if (p.file) o += "; "; }
-        if (p.file) o += "filename=\"" + quote(p.filename) + "\"";
+        std::string nm = p.has_name ? "name=\"" + quote(p.name) + "\"" : "", fn = p.file ? "filename=\"" + quote(p.filename) + "\"" : "";
+        if ((p.var & 1) && p.has_name && p.file) o += fn + "; " + nm; else { o += nm; if (p.has_name && p.file) o += "; "; o += fn; }
         o += E;
-        if (!p.ctype.empty()) o += "Content-Type: " + p.ctype + E;
+        if (p.var & 8) o += "X-After: w" + E;
+        if (!p.ctype.empty()) o += std::string((p.var & 2) ? "content-type: " : "Content-Type: ") + p.ctype + E;
         o += E + p.content + E;
     }
-    o += "--" + b.boundary + "--" + E + b.epilogue;
+    o += "--" + b.boundary + "--" + pad + E + b.epilogue;
     return o;
 }
 
@@ -107,8 +110,8 @@ static std::pair<std::string, std::string> cmp_ast(const Body &b, const Obs &o) 
 
 static std::string body_text(const Body &b, const std::vector<size_t> &cuts, const char *mode) {
     auto H = [](const std::string &s) { return s.empty() ? std::string("-") : vc::hex(s); };
-    std::string s = std::string("mpart ") + mode + "\nboundary " + H(b.boundary) + "\nlf " + std::to_string(b.lf) + "\npreamble " + H(b.preamble) + "\nepilogue " + H(b.epilogue) + "\n";
-    for (auto &p : b.parts) s += "part " + std::to_string(p.file) + " " + std::to_string(p.has_name) + " " + H(p.name) + " " + H(p.filename) + " " + H(p.ctype) + " " + std::to_string(p.fold) + " " + H(p.content) + "\n";
+    std::string s = std::string("mpart ") + mode + "\nboundary " + H(b.boundary) + "\nlf " + std::to_string(b.lf) + "\nlws " + std::to_string(b.lws) + " " + std::to_string(b.ctvar) + "\npreamble " + H(b.preamble) + "\nepilogue " + H(b.epilogue) + "\n";
+    for (auto &p : b.parts) s += "part " + std::to_string(p.file) + " " + std::to_string(p.has_name) + " " + H(p.name) + " " + H(p.filename) + " " + H(p.ctype) + " " + std::to_string(p.fold) + " " + H(p.content) + " " + std::to_string(p.var) + "\n";
     s += "cuts"; for (size_t c : cuts) s += " " + std::to_string(c); s += "\n";
     s += "# wire: \"" + vc::esc(serialize(b), 600) + "\"\n";
     return s;
@@ -162,10 +165,13 @@ static Body gen_body() {
         static const std::vector<std::string> cts = {"", "", "text/plain", "Text/Plain; charset=UTF-8", "application/octet-stream", "image/png,x"};
         p.ctype = rcx::pick(cts);
         p.content = gen_content(b.boundary, b.lf);
+        if (rcx::chance(1, 3)) p.var = rcx::range(1, 15);
         b.parts.push_back(p);
     }
     if (rcx::chance(1, 4)) { b.preamble = gen_content(b.boundary, b.lf); if (b.preamble.compare(0, 2 + b.boundary.size(), "--" + b.boundary) == 0) b.preamble = "x" + b.preamble; }
     if (rcx::chance(1, 4)) b.epilogue = gen_content(b.boundary, b.lf);
+    if (rcx::chance(1, 6)) b.lws = rcx::range(1, 2);
+    if (rcx::chance(1, 3)) b.ctvar = rcx::range(1, 4);
     return b;
 }
 
@@ -201,7 +207,7 @@ static void direct_campaign() {
 static std::pair<std::string, std::string> check_e2e(const Body &b, const std::vector<size_t> &cuts) {
     std::string body = serialize(b);
     bool quoted = b.boundary.find_first_of(",;=?/:()' ") != std::string::npos;
-    std::string req = "POST /up HTTP/1.1\r\nHost: h\r\nContent-Type: multipart/form-data; boundary=" + (quoted ? "\"" + b.boundary + "\"" : b.boundary) + "\r\nContent-Length: " + std::to_string(body.size()) + "\r\n\r\n" + body;
+    std::string req = "POST /up HTTP/1.1\r\nHost: h\r\nContent-Type: " + [&] { std::string bv = quoted ? "\"" + b.boundary + "\"" : b.boundary; switch (b.ctvar) { case 1: return "multipart/form-data; BOUNDARY=" + bv; case 2: return "multipart/form-data; boundary=" + bv + "; charset=utf-8"; case 3: return "multipart/form-data; charset=utf-8; boundary=" + bv; case 4: return "Multipart/Form-Data;boundary=" + bv; default: return "multipart/form-data; boundary=" + bv; } }() + "\r\nContent-Length: " + std::to_string(body.size()) + "\r\n\r\n" + body;
     vdrv::Config c; vdrv::Plan p; vdrv::Options o; o.dump = false; o.monitors = false;
     vdrv::Session ss(c, p, o);
     struct Ctx { std::vector<std::pair<std::string, std::string>> params; std::vector<std::string> files; bool in_file = false; bool got = false; uint64_t mflags = 0; } ctx;
@@ -246,7 +252,8 @@ static int replay(const std::string &path) {
         if (t.empty() || t[0][0] == '#') continue;
         if (t[0] == "mpart" && t.size() > 1) mode = t[1]; else if (t[0] == "boundary" && t.size() > 1) b.boundary = U(t[1]); else if (t[0] == "lf" && t.size() > 1) b.lf = atoi(t[1].c_str());
         else if (t[0] == "preamble" && t.size() > 1) b.preamble = U(t[1]); else if (t[0] == "epilogue" && t.size() > 1) b.epilogue = U(t[1]);
-        else if (t[0] == "part" && t.size() >= 8) { Part pt; pt.file = atoi(t[1].c_str()); pt.has_name = atoi(t[2].c_str()); pt.name = U(t[3]); pt.filename = U(t[4]); pt.ctype = U(t[5]); pt.fold = atoi(t[6].c_str()); pt.content = U(t[7]); b.parts.push_back(pt); }
+        else if (t[0] == "part" && t.size() >= 8) { Part pt; pt.file = atoi(t[1].c_str()); pt.has_name = atoi(t[2].c_str()); pt.name = U(t[3]); pt.filename = U(t[4]); pt.ctype = U(t[5]); pt.fold = atoi(t[6].c_str()); pt.content = U(t[7]); if (t.size() > 8) pt.var = atoi(t[8].c_str()); b.parts.push_back(pt); }
+        else if (t[0] == "lws" && t.size() > 1) { b.lws = atoi(t[1].c_str()); if (t.size() > 2) b.ctvar = atoi(t[2].c_str()); }
         else if (t[0] == "cuts") for (size_t i = 1; i < t.size(); i++) cuts.push_back(atol(t[i].c_str()));
     }
     std::pair<std::string, std::string> r;
